@@ -173,6 +173,9 @@ def judge_c01(ctx, cid, case, res, fi, ri):
     rel = tol.rel_for(x)
     nontrivial = False
     tot_res = tot_ref = tot_scale = 0.0
+    # end weights of neighbouring stretches vanish only to rounding: an all-zero interval next to large values
+    # legitimately carries ~eps of them, hence a small share of the global magnitude in every scale
+    gmag = max(max(abs(v) for v in res), max(abs(v) for v in y), max(abs(v) for v in yr))
     ok = True
     for k in range(len(fi) - 1):
         a, b = fi[k], fi[k + 1]
@@ -180,7 +183,7 @@ def judge_c01(ctx, cid, case, res, fi, ri):
         want = I.integ(xr, yr, ri[k], ri[k + 1], case["ref_rule"])
         before = I.integ(x, y, a, b, case["target_rule"])
         sc = (I.scale(x, res, a, b, case["target_rule"]) + I.scale(xr, yr, ri[k], ri[k + 1], case["ref_rule"])
-              + I.scale(x, y, a, b, case["target_rule"]))
+              + I.scale(x, y, a, b, case["target_rule"]) + 1e-3 * gmag * (x[b] - x[a]))
         ctx.track_worst("c01_rel_err", tol.err(got, want, sc))
         if not tol.close(got, want, sc, rel):
             ok = False
